@@ -75,33 +75,55 @@ no fuel in the statement: the step bound `stepBoundN c (chartBound c) + 1` is a 
 PREFIX (INCOMPLETE) MODE — section "prefix mode" at the end of this file; model `Model/EarleyPrefix.lean` (one-shot
 `parse_forest(word, mode=INCOMPLETE)`: the incomplete states of `scan_bytes` / `scan_regex`, the end-of-input pass of
 `_consume` over the live last column with its forced completions of unfinished states, the covering sets of pairs
-`(nonterminal, finished?)`, `_incomplete`, the yield order, the final repetition shortcut):
-* `C06_prefix_terminates : PrefixStatement Variant.now`  for every grammar, input, both regex oracles, start symbol and
+`(nonterminal, finished?)`, `_incomplete`, the yield order, the final repetition shortcut).  The prefix-mode model has one
+parameter of its own, `PCfg.cutShort` (`Gen.cutShort`, read from the source by the translator): the source has
+`ParseState.cut_short` — the repair of finding C19:F68: a state advanced over a derivation that ends with the input is
+marked and never advanced again — (`true`) or not (`false`).  Everything below is proved for BOTH values unless it says
+otherwise:
+* `C06_cut_short_irrelevant_in_complete_mode`  COMPLETE mode does not see the parameter: the chart machine of both values
+                                 is the same configuration (so every theorem of C04 / C05 / C06 / C13 about COMPLETE mode
+                                 holds verbatim for the patched and the unpatched source), every `complete` call of that
+                                 machine is that of a finished state (the flag it would hand on is `False`), and the first
+                                 loop of a prefix parse is the same machine step by step;
+* `C06_prefix_terminates : ∀ cs, PrefixStatement Variant.now cs`  for every grammar, input, both regex oracles, start symbol and
                                  prediction order the prefix-mode machine reaches `done`/`raised` within `prefixBound pc`
                                  steps, a function of the configuration (`C06_prefix_machine_terminates` for every rule
                                  table / scanner / partial-match oracle; `C06_prefix_terminates_all_grammars` for every
                                  variant with the policy of the code; `C06_prefix_generated_variant_terminates` for the
-                                 variant read from the source; `C06_prefix_answer`: `parsePrefix` has an answer);
+                                 variant and the `cutShort` read from the source; `C06_prefix_answer`: `parsePrefix` has an
+                                 answer);
 * `C06_prefix_last_column_bounded`  the covering cut bounds the forced completions: at most `capP pc` states in the last
                                  column of the end-of-input phase (rank `lrP`, levels `KB`, pigeonhole —
                                  `Proofs/EarleyPrefixK.lean`, `EarleyPrefixInv.lean`, `EarleyPrefixTerm.lean`);
 * `C06_prefix_cut_terminates_witnesses`  the left-recursive grammar of finding F32 on "ab" and `("a"?)* "b"` on "a":
-                                 concrete runs of the code as it is (`decide +kernel`);
+                                 concrete runs, both values of `cutShort` (`decide +kernel`);
 * `C06_old_prefix_left_recursion_diverges_example_partial`  OLD (before /repo 73e5ffe3; NOT true of the code as it is):
                                  F32 — still running and growing after 200/400/600 steps.
-* `C04_prefix_sound_partial`     (the subject of C04 carried over, partial) every tree `parsePrefix` yields — every variant,
-                                 grammar typed for the input, prediction order, fuel — is the collapsed node of the start
-                                 symbol over children that are a prefix of an expansion of one of its rules in the
+* `C04_prefix_sound_partial`     (the subject of C04 carried over, weak form, both values) every tree `parsePrefix` yields — every
+                                 variant, grammar typed for the input, prediction order, fuel — is the collapsed node of the
+                                 start symbol over children that are a prefix of an expansion of one of its rules in the
                                  compiled table, recursively (`PreL`, `Proofs/EarleyPrefixSound.lean`: the chart invariant
                                  of `Proofs/C04Chart.lean` re-proved with `stop` and the partial leaf), spanning all columns,
                                  and its leaves tile the whole input (the partial leaf is the rest of the input);
                                  `C04_prefix_chart_sound` the same at chart level for every rule table / scanner / policy.
-                                 The stronger "only the rightmost path is cut short" is FALSE of the code (witness in
-                                 the section, observation findings/OBS-C04-prefix-sibling-after-unfinished); not carried
-                                 over: the collapse to the IR-level derivation relation `Matches` / `Valid`.
-* `C04_prefix_rightmost_path_only_is_false_witness`  the machine-checked witness of that (model run on `G6` / "x", `decide +kernel`).
+* `C04_prefix_rightmost_path_only`  **the strong form, for the source WITH `cut_short`** (`cutShort = true`): every yielded
+                                 tree is a prefix of a DERIVATION (`PreS`, `Proofs/EarleyPrefixStrong.lean`): in every node
+                                 all children but the last are COMPLETE derivations, only the last may be cut short — a
+                                 partial leaf, or a node that is again of this form (`C04_prefix_rightmost_path_shape`:
+                                 children = complete derivation of the first `n` symbols ++ nothing / partial leaf / one
+                                 cut-short child); it implies the weak form (`C04_prefix_strong_implies_weak`);
+                                 `C04_prefix_chart_rightmost_path_only` at chart level for every rule table / scanner /
+                                 policy; `C04_prefix_generated_rightmost_path_only` for what the translator read (vacuous
+                                 while the source has no `cut_short`).  Not carried over: the collapse to the IR-level
+                                 derivation relation `Matches` / `Valid`; what it gives C19 is stated at the end of the file.
+* `C04_prefix_rightmost_path_only_is_false_witness`  ABOUT THE SOURCE WITHOUT `cut_short` (`cutShort = false`, /repo before the
+                                 repair): the strong form is FALSE there — model run on `G6` / "x" (`decide +kernel`), the
+                                 spurious tree `<start>(<b>("x"), <c>(""))`; the same run with `cutShort = true` yields the
+                                 three genuine trees only (observation findings/OBS-C04-prefix-sibling-after-unfinished,
+                                 finding C19:F68).
 Differential only for prefix mode: that the model is the code (per run: the same states in every column, incomplete and
-force-completed ones included, the same yielded trees), the partial-match regex oracle (`regex` module), the one
+force-completed ones included, each with its `is_incomplete` and `cut_short` flag, the same yielded trees; no state of a
+COMPLETE-mode run or of an earlier column is ever marked), the partial-match regex oracle (`regex` module), the one
 documented deviation of the model (an ordinary state admitted to the last column after an incomplete state with the same
 item and children: never observed, impossible for compiled grammars by a children-count argument that is not proved).
 
@@ -120,6 +142,7 @@ import Proofs.EarleyFuel
 import Model.EarleyPrefix
 import Proofs.EarleyPrefixTerm
 import Proofs.EarleyPrefixSound
+import Proofs.EarleyPrefixStrong
 import Generated.Earley
 namespace FV.Earley
 
@@ -382,9 +405,11 @@ entries are derivations `(nonterminal, finished?)`.  Finding F32 lived here: wit
 input the forced completions wrapped the result into itself again and again.
 
 FULL STATEMENT (all grammars, all finite inputs, both regex oracles, every start symbol and prediction order):
-`PrefixStatement v` below.  PROVED for the parser as it is: `C06_prefix_terminates : PrefixStatement Variant.now`, with
-the explicit step bound `prefixBound pc` (a function of the configuration), and `C06_prefix_generated_variant_terminates`
-for the variant the translator reads from the source.  The argument (`Proofs/EarleyPrefix*.lean`): phase A is the
+`PrefixStatement v cs` below (`cs`: the source has `ParseState.cut_short`).  PROVED for the parser as it is, with and without
+`cut_short`: `C06_prefix_terminates : ∀ cs, PrefixStatement Variant.now cs`, with the explicit step bound `prefixBound pc` (a
+function of the configuration), and `C06_prefix_generated_variant_terminates` for the variant and the `cutShort` the
+translator reads from the source.  (`cut_short` only removes completions: an iteration of `complete` that is skipped admits
+nothing and shortens the rest of the loop — the measure drops.)  The argument (`Proofs/EarleyPrefix*.lean`): phase A is the
 COMPLETE-mode machine, so `TInv` / `muN` of `Proofs/EarleyBound.lean` / `EarleyGrow.lean` apply; when phase B begins the
 children of every state are *atoms* (`K c (base c ncols)`, plus one partial leaf for the incomplete states); a forced
 completion builds the new state of the last column from a completed state `t` and an advanced state `s` that both
@@ -399,14 +424,37 @@ What rests on the differential check only: that `Model/EarleyPrefix.lean` is the
 column incl. the incomplete and the force-completed ones, same yielded trees), the two regex oracles, and the one
 documented deviation (an ordinary state admitted after an incomplete one with the same item and children).  -/
 
-/-- the full statement of C06 for prefix mode, for a variant of the parser -/
-def PrefixStatement (v : Variant) : Prop :=
+/-- **`cut_short` is irrelevant in COMPLETE mode**: (1) the chart machine a prefix parse embeds — the machine of COMPLETE
+    mode, `Model/Earley.lean` — is the same configuration `mkCfg G v …` for both values of `cutShort` (the model of
+    COMPLETE mode has no such field: every theorem of C04 / C05 / C06 / C13 about `mkCfg` / `run` / `parseComplete` is a
+    theorem about the source with and without the repair); (2) why that is the code: every `complete` call of that
+    machine — from the main loop and from the loop that ends `predict` — is that of a FINISHED state, so the flag
+    `state.cut_short or not state.finished()` it hands on is `False` as long as the flags it reads are (all states start
+    with `False`; the harness checks on every recorded run that no state of a COMPLETE-mode run is marked); (3) the first
+    loop of a prefix parse (phase A) is step by step the same for both values -/
+theorem C06_cut_short_irrelevant_in_complete_mode (G : Grammar) (v : Variant) (pi : PInput) (start : String)
+    (pred : Nat → NT → List (List ESym)) (hpred : ∀ k x rhs, rhs ∈ pred k x → (x, rhs) ∈ compile G v.cap) :
+    ((mkPCfg G v true pi start pred).c = mkCfg G v pi.inp start pred
+      ∧ (mkPCfg G v false pi start pred).c = mkCfg G v pi.inp start pred)
+    ∧ (∀ fuel,
+        (∀ t i, (run (mkCfg G v pi.inp start pred) fuel (M.init (mkCfg G v pi.inp start pred))).mach.frame = some (t, i) →
+          (false || !t.item.finished) = false)
+        ∧ (∀ t, t ∈ (run (mkCfg G v pi.inp start pred) fuel (M.init (mkCfg G v pi.inp start pred))).mach.pending →
+          (false || !t.item.finished) = false))
+    ∧ (∀ pm : PM, pm.phaseB = false →
+        stepP (mkPCfg G v true pi start pred) pm = stepP (mkPCfg G v false pi start pred) pm) :=
+  ⟨⟨rfl, rfl⟩,
+   fun fuel => complete_mode_calls_finished _ (saneS_of_rules _ G v.cap rfl hpred) fuel,
+   fun pm hph => stepP_phaseA_cutShort G v pi start pred pm hph⟩
+
+/-- the full statement of C06 for prefix mode, for a variant of the parser and a value of `cutShort` -/
+def PrefixStatement (v : Variant) (cs : Bool) : Prop :=
   ∀ (G : Grammar) (pi : PInput) (start : String) (pred : Nat → NT → List (List ESym)),
     (∀ k x rhs, rhs ∈ pred k x → (x, rhs) ∈ compile G v.cap) →
-    ∃ pm', runP (mkPCfg G v pi start pred) (prefixBound (mkPCfg G v pi start pred))
-              (PM.init (mkPCfg G v pi start pred)) = .done pm'
-         ∨ runP (mkPCfg G v pi start pred) (prefixBound (mkPCfg G v pi start pred))
-              (PM.init (mkPCfg G v pi start pred)) = .raised pm'
+    ∃ pm', runP (mkPCfg G v cs pi start pred) (prefixBound (mkPCfg G v cs pi start pred))
+              (PM.init (mkPCfg G v cs pi start pred)) = .done pm'
+         ∨ runP (mkPCfg G v cs pi start pred) (prefixBound (mkPCfg G v cs pi start pred))
+              (PM.init (mkPCfg G v cs pi start pred)) = .raised pm'
 
 /-- **the prefix-mode machine of the code stops**: `done` or `raised` (`IndexError`) within `prefixBound pc` steps — every
     rule table (nullable, cyclic, left/right recursive), input, prediction order that only offers alternatives of the
@@ -423,17 +471,19 @@ theorem C06_prefix_last_column_bounded (pc : PCfg) (hs : Sane pc.c) (hp : pc.c.p
 
 /-- **PrefixStatement for the admission rule of the code**: every grammar, every variant of compilation / scanner /
     `predict` with the policy `acyclic`, every input, start symbol and prediction order -/
-theorem C06_prefix_terminates_all_grammars (v : Variant) (hp : v.policy = .acyclic) : PrefixStatement v := by
+theorem C06_prefix_terminates_all_grammars (v : Variant) (cs : Bool) (hp : v.policy = .acyclic) :
+    PrefixStatement v cs := by
   intro G pi start pred hpred
-  exact C06_prefix_machine_terminates (mkPCfg G v pi start pred) (sane_mkCfg G v pi.inp start pred hpred) hp
+  exact C06_prefix_machine_terminates (mkPCfg G v cs pi start pred) (sane_mkCfg G v pi.inp start pred hpred) hp
 
-/-- **a prefix parse with the parser as it is now terminates** on every grammar and every finite input -/
-theorem C06_prefix_terminates : PrefixStatement Variant.now :=
-  C06_prefix_terminates_all_grammars Variant.now rfl
+/-- **a prefix parse with the parser as it is now terminates** on every grammar and every finite input — with and
+    without `ParseState.cut_short` -/
+theorem C06_prefix_terminates : ∀ cs, PrefixStatement Variant.now cs :=
+  fun cs => C06_prefix_terminates_all_grammars Variant.now cs rfl
 
-/-- the variant the translator read from the source *now*: the prefix statement holds for it -/
-theorem C06_prefix_generated_variant_terminates : ∃ v, Gen.variant = some v ∧ PrefixStatement v :=
-  ⟨_, rfl, C06_prefix_terminates_all_grammars _ rfl⟩
+/-- the variant and the `cutShort` the translator read from the source *now*: the prefix statement holds for them -/
+theorem C06_prefix_generated_variant_terminates : ∃ v, Gen.variant = some v ∧ PrefixStatement v Gen.cutShort :=
+  ⟨_, rfl, C06_prefix_terminates_all_grammars _ _ rfl⟩
 
 /-- hence `parsePrefix` has an answer at the fuel `prefixBound pc`: a list of partial trees or the exception -/
 theorem C06_prefix_answer (pc : PCfg) (hs : Sane pc.c) (hp : pc.c.policy = .acyclic) :
@@ -448,7 +498,8 @@ def G5 : Grammar := { rules := [("<start>", .nt "<a>" none none),
 def pinAB : PInput := { inp := inAB, rinc := fun _ _ => false }
 /-- the input "a" -/
 def pinA : PInput := { inp := { isBytes := false, cells := [97], rlen := fun _ _ => none }, rinc := fun _ _ => false }
-def pcfgV (G : Grammar) (v : Variant) (pi : PInput) : PCfg := mkPCfg G v pi "<start>" (predDefault G v.cap)
+def pcfgV (G : Grammar) (v : Variant) (cs : Bool) (pi : PInput) : PCfg :=
+  mkPCfg G v cs pi "<start>" (predDefault G v.cap)
 def PRes.pm : PRes → PM
   | .next pm => pm
   | .done pm => pm
@@ -459,29 +510,33 @@ def PRes.isDone : PRes → Bool
 def PRes.running : PRes → Bool
   | .next _ => true
   | _ => false
-def runPV (G : Grammar) (v : Variant) (pi : PInput) (n : Nat) : PRes := runP (pcfgV G v pi) n (PM.init (pcfgV G v pi))
+def runPV (G : Grammar) (v : Variant) (cs : Bool) (pi : PInput) (n : Nat) : PRes :=
+  runP (pcfgV G v cs pi) n (PM.init (pcfgV G v cs pi))
 
 /-- the prefix-mode machine for a compiled rule table, prediction in table order -/
-def pcfgOf (rules : List CRule) (v : Variant) (pi : PInput) (start : String) : PCfg :=
-  { c := cfgOf rules v pi.inp start, iscan := iscanV v pi }
+def pcfgOf (rules : List CRule) (v : Variant) (cs : Bool) (pi : PInput) (start : String) : PCfg :=
+  { c := cfgOf rules v pi.inp start, iscan := iscanV v pi, cutShort := cs }
 
 /-- the hypotheses of `C06_prefix_machine_terminates` / `C06_prefix_last_column_bounded` are met by every compiled
     grammar on every input, in particular by the left-recursive grammar of F32 (inside the divergence class
     `hasLeftCycle` of prefix parses) with the machine of the code as it is now -/
-example : Sane (pcfgOf (compile G5 none) Variant.now pinAB "<start>").c
-    ∧ (pcfgOf (compile G5 none) Variant.now pinAB "<start>").c.policy = .acyclic
+example (cs : Bool) : Sane (pcfgOf (compile G5 none) Variant.now cs pinAB "<start>").c
+    ∧ (pcfgOf (compile G5 none) Variant.now cs pinAB "<start>").c.policy = .acyclic
     ∧ hasLeftCycle (compile G5 none) = true :=
   ⟨sane_cfgOf _ _ _ _, rfl, by decide +kernel⟩
 
-/-- the parser as it is now in prefix mode: on the left-recursive grammar of F32 and "ab" it is over within 80 steps
-    with 7 states in the last column, the complete tree and one partial tree (the forced completion of the
-    left-recursive rule is cut); on `("a"?)* "b"` / "a" (an empty-deriving body under a repetition AND an input that
-    ends early) within 1000 steps with three partial trees -/
-theorem C06_prefix_cut_terminates_witnesses :
-    (runPV G5 Variant.now pinAB 80).isDone = true ∧ (runPV G5 Variant.now pinAB 80).pm.last.length = 7
-    ∧ (runPV G5 Variant.now pinAB 80).pm.m.out.length = 1 ∧ (runPV G5 Variant.now pinAB 80).pm.out.length = 1
-    ∧ (runPV G0 Variant.now pinA 1000).isDone = true ∧ (runPV G0 Variant.now pinA 1000).pm.out.length = 3
-    ∧ (runPV G0 Variant.now pinA 1000).pm.m.out.length = 0 := by
+/-- the parser as it is now in prefix mode, with and without `cut_short`: on the left-recursive grammar of F32 and "ab"
+    it is over within 80 steps with 7 states in the last column, the complete tree and one partial tree (the forced
+    completion of the left-recursive rule is cut); on `("a"?)* "b"` / "a" (an empty-deriving body under a repetition AND
+    an input that ends early) within 1000 steps with three partial trees.  (With `cut_short` 1 resp. 16 states of the
+    last column are marked.) -/
+theorem C06_prefix_cut_terminates_witnesses : ∀ cs : Bool,
+    (runPV G5 Variant.now cs pinAB 80).isDone = true ∧ (runPV G5 Variant.now cs pinAB 80).pm.last.length = 7
+    ∧ (runPV G5 Variant.now cs pinAB 80).pm.m.out.length = 1 ∧ (runPV G5 Variant.now cs pinAB 80).pm.out.length = 1
+    ∧ (runPV G0 Variant.now cs pinA 1000).isDone = true ∧ (runPV G0 Variant.now cs pinA 1000).pm.out.length = 3
+    ∧ (runPV G0 Variant.now cs pinA 1000).pm.m.out.length = 0
+    ∧ ((runPV G5 Variant.now cs pinAB 80).pm.last.filter (·.cut)).length = (if cs then 1 else 0)
+    ∧ ((runPV G0 Variant.now cs pinA 1000).pm.last.filter (·.cut)).length = (if cs then 16 else 0) := by
   decide +kernel
 
 /-- OLD — about the code BEFORE /repo 73e5ffe3 (`Variant.old`: no covering cut), NOT about the code as it is: finding
@@ -489,54 +544,111 @@ theorem C06_prefix_cut_terminates_witnesses :
     the last column and the number of yielded partial trees growing every time (finite witness, `decide +kernel`;
     partial: the statement for all n is not proved).  With the cut (`Variant.now`) the same run is over after 80. -/
 theorem C06_old_prefix_left_recursion_diverges_example_partial :
-    (runPV G5 (Variant.old 20) pinAB 600).running = true
-    ∧ (runPV G5 (Variant.old 20) pinAB 200).pm.last.length < (runPV G5 (Variant.old 20) pinAB 400).pm.last.length
-    ∧ (runPV G5 (Variant.old 20) pinAB 400).pm.last.length < (runPV G5 (Variant.old 20) pinAB 600).pm.last.length
-    ∧ (runPV G5 (Variant.old 20) pinAB 200).pm.out.length < (runPV G5 (Variant.old 20) pinAB 600).pm.out.length
-    ∧ (runPV G5 Variant.now pinAB 80).isDone = true := by
+    (runPV G5 (Variant.old 20) false pinAB 600).running = true
+    ∧ (runPV G5 (Variant.old 20) false pinAB 200).pm.last.length < (runPV G5 (Variant.old 20) false pinAB 400).pm.last.length
+    ∧ (runPV G5 (Variant.old 20) false pinAB 400).pm.last.length < (runPV G5 (Variant.old 20) false pinAB 600).pm.last.length
+    ∧ (runPV G5 (Variant.old 20) false pinAB 200).pm.out.length < (runPV G5 (Variant.old 20) false pinAB 600).pm.out.length
+    ∧ (runPV G5 Variant.now false pinAB 80).isDone = true := by
   decide +kernel
 
-/-! ### soundness of prefix mode (the subject of C04, carried over; partial)
+/-! ### soundness of prefix mode (the subject of C04, carried over)
 
-FULL STATEMENT (not proved): every tree a prefix parse yields is a *prefix of a derivation* of the grammar from the start
-symbol — a valid derivation tree (`Valid`, helper symbols collapsed) of which only the rightmost path is cut short —
-whose leaves spell the whole input, the last leaf possibly a proper prefix of a terminal.  THIS IS FALSE OF THE CODE as
-stated: `<start> ::= <b> <c> | "x" <c> "z" ; <b> ::= "x" "y" ; <c> ::= "" "q"` on "x" yields `<start>(<b>("x"), <c>(""))` —
-`<b>` is cut short and yet followed by `<c>` (a state advanced over the unfinished `<b>` by a forced completion is
-advanced again by a state that starts in the last column): `findings/OBS-C04-prefix-sibling-after-unfinished`,
-`C04_prefix_rightmost_path_only_is_false_witness` below.  What holds, and is proved for the model:
-every inner node's children are a prefix of an expansion of one of its rules (`PreL`, over the compiled table: the
-collapse to the IR-level `Matches` is not carried over), the root is the start symbol, and the leaves tile the whole
-input. -/
+FULL STATEMENT: every tree a prefix parse yields is a *prefix of a derivation* of the grammar from the start symbol — a valid
+derivation tree (`Valid`, helper symbols collapsed) of which only the rightmost path is cut short — whose leaves spell the
+whole input, the last leaf possibly a proper prefix of a terminal.
 
-/-- **every tree a prefix parse of the model yields** (every variant, grammar, typed input, prediction order, fuel) is
-    the node of the start symbol, collapsed, over children that are a prefix of an expansion of one of its rules in
-    the compiled table — recursively: every node's children are (`PreL`) — spanning all columns, and its leaves tile
-    the whole input: each complete leaf is what the input holds at its column, the partial leaf of an incomplete
-    terminal match is the rest of the input.  Partial: not collapsed to the IR-level derivation relation. -/
-theorem C04_prefix_sound_partial (G : Grammar) (v : Variant) (pi : PInput) (start : String)
+* For the source WITH `ParseState.cut_short` (`cutShort = true`) it is PROVED over the compiled rule table:
+  `C04_prefix_rightmost_path_only` (`PreS`: in every node all children but the last are complete derivations `DerL`; the last
+  may be a partial leaf or a node that is again of this form), together with `C04_prefix_sound_partial` (the leaves tile the
+  whole input).  Partial only in that the collapse of the compiled table to the IR-level relation `Matches` / `Valid` is not
+  carried over from COMPLETE mode.
+* For the source WITHOUT it (`cutShort = false`, /repo before the repair of C19:F68) it is FALSE:
+  `<start> ::= <b> <c> | "x" <c> "z" ; <b> ::= "x" "y" ; <c> ::= "" "q"` on "x" yields `<start>(<b>("x"), <c>(""))` —
+  `<b>` is cut short and yet followed by `<c>` (a state advanced over the unfinished `<b>` by a forced completion is
+  advanced again by a state that starts in the last column): `findings/OBS-C04-prefix-sibling-after-unfinished`,
+  `C04_prefix_rightmost_path_only_is_false_witness` below.  What holds for both values is the weak form
+  `C04_prefix_sound_partial`: every inner node's children are a prefix of an expansion of one of its rules (`PreL`), the root
+  is the start symbol, and the leaves tile the whole input. -/
+
+/-- **every tree a prefix parse of the model yields** (every variant, with or without `cut_short`, grammar, typed input,
+    prediction order, fuel) is the node of the start symbol, collapsed, over children that are a prefix of an expansion of
+    one of its rules in the compiled table — recursively: every node's children are (`PreL`) — spanning all columns, and
+    its leaves tile the whole input: each complete leaf is what the input holds at its column, the partial leaf of an
+    incomplete terminal match is the rest of the input.  Partial: the weak form (see `C04_prefix_rightmost_path_only` for
+    the strong one); not collapsed to the IR-level derivation relation. -/
+theorem C04_prefix_sound_partial (G : Grammar) (v : Variant) (cs : Bool) (pi : PInput) (start : String)
     (pred : Nat → NT → List (List ESym)) (R : RegexOracle)
     (hpred : ∀ k x rhs, rhs ∈ pred k x → (x, rhs) ∈ compile G v.cap)
     (hty : G.typed pi.inp.isBytes = true) (ho : OracleOk pi.inp R) (hc : CellsOk pi.inp)
-    (fuel : Nat) (ts : List PartialTree) (h : parsePrefix (mkPCfg G v pi start pred) fuel = some (.ok ts)) :
+    (fuel : Nat) (ts : List PartialTree) (h : parsePrefix (mkPCfg G v cs pi start pred) fuel = some (.ok ts)) :
     ∀ t ∈ ts, ∃ kids rhs, t = Tree.mk (.nt start) none none (collapseL kids) ∧ (NT.user start, rhs) ∈ compile G v.cap ∧
       PreL (tableOf G v.cap start) (scanV v pi.inp) (iscanV v pi) rhs kids 0 (8 * pi.inp.cells.length) ∧
       TilesLoose pi.inp t.leaves 0 (8 * pi.inp.cells.length) :=
-  prefix_parse_sound G v pi start pred R hpred hty ho hc fuel ts h
+  prefix_parse_sound G v cs pi start pred R hpred hty ho hc fuel ts h
 
-/-- chart level, every rule table / scanner / partial-match oracle / policy: every tree the prefix-mode machine has
-    yielded after any number of steps is the start node over a `PreL` derivation spanning all columns -/
+/-- chart level, every rule table / scanner / partial-match oracle / policy / value of `cutShort`: every tree the
+    prefix-mode machine has yielded after any number of steps is the start node over a `PreL` derivation spanning all
+    columns -/
 theorem C04_prefix_chart_sound (pc : PCfg) (hs : SaneS pc.c) (hpos : 0 < pc.c.ncols) (fuel : Nat) :
     ∀ pt, pt ∈ (runP pc fuel (PM.init pc)).mach.m.out ++ (runP pc fuel (PM.init pc)).mach.out → TopOkP pc pt :=
   prefix_chart_sound pc hs hpos fuel
 
 /-- the hypotheses of `C04_prefix_sound_partial` are met by the left-recursive grammar of F32 on "ab" (typed, no regex,
-    text input), and the parse there does yield trees: two (the complete one and a partial one) -/
-example : G5.typed pinAB.inp.isBytes = true ∧ OracleOk pinAB.inp (fun _ _ => false) ∧ CellsOk pinAB.inp
-    ∧ (match parsePrefix (pcfgV G5 Variant.now pinAB) 80 with
+    text input), and the parse there does yield trees: two (the complete one and a partial one), for both values -/
+example (cs : Bool) : G5.typed pinAB.inp.isBytes = true ∧ OracleOk pinAB.inp (fun _ _ => false) ∧ CellsOk pinAB.inp
+    ∧ (match parsePrefix (pcfgV G5 Variant.now cs pinAB) 80 with
         | some (.ok ts) => ts.length
         | _ => 0) = 2 :=
-  ⟨(by decide +kernel), (by intro id w l h; cases h), (by intro h; cases h), (by decide +kernel)⟩
+  ⟨(by decide +kernel), (by intro id w l h; cases h), (by intro h; cases h), (by revert cs; decide +kernel)⟩
+
+/-- **only the rightmost path of a partial tree is cut short — the source WITH `ParseState.cut_short`**: every tree a
+    prefix parse of the model with `cutShort = true` yields (every variant of compilation / scanner / `predict` /
+    admission policy, grammar, input, both regex oracles, prediction order, fuel) is the node of the start symbol,
+    collapsed, over children `kids` that are a PREFIX OF A DERIVATION of one of its rules in the compiled table, spanning
+    all columns: `PreS` — every child is a COMPLETE derivation (`DerL`: the relation COMPLETE mode is sound for,
+    `Proofs/C04Defs.lean`) of its symbol, except possibly the LAST one, which may be the partial leaf of an incomplete
+    terminal match or a nonterminal whose own children are again such a prefix.  No node that is not on the right spine
+    is cut short; nothing follows a node that is.  (With `C04_prefix_sound_partial`: and the leaves tile the input.) -/
+theorem C04_prefix_rightmost_path_only (G : Grammar) (v : Variant) (pi : PInput) (start : String)
+    (pred : Nat → NT → List (List ESym))
+    (hpred : ∀ k x rhs, rhs ∈ pred k x → (x, rhs) ∈ compile G v.cap)
+    (fuel : Nat) (ts : List PartialTree) (h : parsePrefix (mkPCfg G v true pi start pred) fuel = some (.ok ts)) :
+    ∀ t ∈ ts, ∃ kids rhs, t = Tree.mk (.nt start) none none (collapseL kids) ∧ (NT.user start, rhs) ∈ compile G v.cap ∧
+      PreS (tableOf G v.cap start) (scanV v pi.inp) (iscanV v pi) rhs kids 0 (8 * pi.inp.cells.length) :=
+  prefix_parse_strong G v pi start pred hpred fuel ts h
+
+/-- what `PreS` says, spelled out: the children are a COMPLETE derivation `ks1` of the first `n` symbols of the sequence,
+    followed by `ks2` = nothing (the input ends between two symbols), the partial leaf of the terminal at position `n`, or
+    ONE child for the nonterminal at position `n` (its node, or its spliced children for a helper symbol) whose children
+    are a `PreS` prefix of one of its rules — `CutTail`, `Proofs/EarleyPrefixStrong.lean` -/
+theorem C04_prefix_rightmost_path_shape {rules : List CRule} {scan iscan : Scan} {rhs : List ESym} {ks : List PT}
+    {i j : Nat} (h : PreS rules scan iscan rhs ks i j) :
+    ∃ n ks1 ks2 m, ks = ks1 ++ ks2 ∧ DerL rules scan (rhs.take n) ks1 i m ∧ CutTail rules scan iscan rhs n m j ks2 :=
+  preS_split h
+
+/-- the strong form implies the weak one -/
+theorem C04_prefix_strong_implies_weak {rules : List CRule} {scan iscan : Scan} {rhs : List ESym} {ks : List PT}
+    {i j : Nat} (h : PreS rules scan iscan rhs ks i j) : PreL rules scan iscan rhs ks i j :=
+  preL_of_preS h
+
+/-- chart level, every rule table / scanner / partial-match oracle / policy, `cutShort = true`: every tree the prefix-mode
+    machine has yielded after any number of steps is the start node over a `PreS` prefix spanning all columns -/
+theorem C04_prefix_chart_rightmost_path_only (pc : PCfg) (hs : SaneS pc.c) (hcs : pc.cutShort = true)
+    (hpos : 0 < pc.c.ncols) (fuel : Nat) :
+    ∀ pt, pt ∈ (runP pc fuel (PM.init pc)).mach.m.out ++ (runP pc fuel (PM.init pc)).mach.out → TopOkS pc pt :=
+  prefix_chart_strong pc hs hcs hpos fuel
+
+/-- for what the translator read from the source *now* (variant and `cutShort`): IF the source has `cut_short`, every
+    prefix parse of the model of that source yields prefixes of derivations only.  (Vacuous while the source does not have
+    it: `C04_prefix_rightmost_path_only_is_false_witness` is the verdict then.) -/
+theorem C04_prefix_generated_rightmost_path_only (hcs : Gen.cutShort = true) (G : Grammar) (v : Variant)
+    (hv : Gen.variant = some v) (pi : PInput) (start : String) (pred : Nat → NT → List (List ESym))
+    (hpred : ∀ k x rhs, rhs ∈ pred k x → (x, rhs) ∈ compile G v.cap)
+    (fuel : Nat) (ts : List PartialTree) (h : parsePrefix (mkPCfg G v Gen.cutShort pi start pred) fuel = some (.ok ts)) :
+    ∀ t ∈ ts, ∃ kids rhs, t = Tree.mk (.nt start) none none (collapseL kids) ∧ (NT.user start, rhs) ∈ compile G v.cap ∧
+      PreS (tableOf G v.cap start) (scanV v pi.inp) (iscanV v pi) rhs kids 0 (8 * pi.inp.cells.length) := by
+  rw [hcs] at h
+  exact prefix_parse_strong G v pi start pred hpred fuel ts h
 
 /-- `<start> ::= <b> <c> | "x" <c> "z" ; <b> ::= "x" "y" ; <c> ::= "" "q"` -/
 def G6 : Grammar := { rules := [
@@ -550,20 +662,68 @@ def pinX : PInput := { inp := { isBytes := false, cells := [120], rlen := fun _ 
 def spuriousTree : Tree :=
   Tree.node "<start>" [Tree.node "<b>" [Tree.leaf (.text [120])], Tree.node "<c>" [Tree.leaf (.text [])]]
 
-/-- **the stronger form of prefix soundness — only the rightmost path of a partial tree is cut short — is FALSE of the
-    code** (model run, `decide +kernel`; the same four trees come out of the real parser: the check compares them, and
-    `findings/OBS-C04-prefix-sibling-after-unfinished/repro.py` replays it).  On "x" the prefix parse of `G6` yields,
-    among its four trees, `<start>(<b>("x"), <c>(""))`: the only rule of `<b>` is `"x" "y"`, so `<b>("x")` is cut short,
-    and yet it is followed by the sibling `<c>` — no derivation of the grammar has this tree as a prefix (`<c>` can only
-    start after "xy").  It satisfies `C04_prefix_sound_partial` (every node's children are a prefix of an expansion of
-    its rule; the leaves "x", "" tile the input).  Cause: the state `<start-alt> ::= <b> • <c>` that the forced completion
-    of the unfinished `<b>` adds to the last column is advanced again by the (force-completed) `<c>` that starts there. -/
+/-- the hypotheses of `C04_prefix_chart_rightmost_path_only` are met by `G6` on "x" (the witness grammar of the unrepaired
+    parser; prediction in table order), and the machine with `cut_short` does yield partial trees there: three — the
+    genuine ones `<start>("x")`, `<start>(<b>("x"))`, `<start>("x", <c>(""))`, not the spurious one (the same through
+    `parsePrefix`, whose prediction order `predDefault` meets the hypothesis of `C04_prefix_rightmost_path_only` for
+    every nonterminal of the table) -/
+example : SaneS (pcfgOf (compile G6 none) Variant.now true pinX "<start>").c
+    ∧ (pcfgOf (compile G6 none) Variant.now true pinX "<start>").cutShort = true
+    ∧ 0 < (pcfgOf (compile G6 none) Variant.now true pinX "<start>").c.ncols
+    ∧ (runP (pcfgOf (compile G6 none) Variant.now true pinX "<start>") 100
+        (PM.init (pcfgOf (compile G6 none) Variant.now true pinX "<start>"))).mach.out.length = 3
+    ∧ (match parsePrefix (pcfgV G6 Variant.now true pinX) 100 with
+        | some (.ok ts) => decide (ts.length = 3) && !ts.any (fun t => Tree.beq t spuriousTree)
+        | _ => false) = true :=
+  ⟨saneS_of_rules _ G6 none rfl (fun k x rhs h => predOfRules_mem (rules := compile G6 none) (k := k) (x := x) h),
+   rfl, by decide, by decide +kernel, by decide +kernel⟩
+
+/-- **ABOUT THE SOURCE WITHOUT `ParseState.cut_short`** (`cutShort = false`: /repo before the repair of C19:F68; NOT true
+    of a source that has it — `C04_prefix_rightmost_path_only`): the strong form of prefix soundness — only the rightmost
+    path of a partial tree is cut short — is FALSE there (model run, `decide +kernel`; the same four trees come out of the
+    unrepaired parser: the check compares them, and `findings/OBS-C04-prefix-sibling-after-unfinished/repro.py` replays
+    it).  On "x" the prefix parse of `G6` yields, among its four trees, `<start>(<b>("x"), <c>(""))`: the only rule of `<b>`
+    is `"x" "y"`, so `<b>("x")` is cut short, and yet it is followed by the sibling `<c>` — no derivation of the grammar has
+    this tree as a prefix (`<c>` can only start after "xy").  It satisfies `C04_prefix_sound_partial` (every node's children
+    are a prefix of an expansion of its rule; the leaves "x", "" tile the input).  Cause: the state `<start-alt> ::= <b> • <c>`
+    that the forced completion of the unfinished `<b>` adds to the last column is advanced again by the (force-completed)
+    `<c>` that starts there.  The same run WITH `cut_short` yields three trees, the spurious one is not among them. -/
 theorem C04_prefix_rightmost_path_only_is_false_witness :
-    (match parsePrefix (pcfgV G6 Variant.now pinX) 100 with
+    (match parsePrefix (pcfgV G6 Variant.now false pinX) 100 with
       | some (.ok ts) => decide (ts.length = 4) && ts.any (fun t => Tree.beq t spuriousTree)
       | _ => false) = true
     ∧ G6.rule "<b>" = some (.cat "c3" [.term (.lit (.text [120])), .term (.lit (.text [121]))])
-    ∧ G6.typed pinX.inp.isBytes = true := by
+    ∧ G6.typed pinX.inp.isBytes = true
+    ∧ (match parsePrefix (pcfgV G6 Variant.now true pinX) 100 with
+      | some (.ok ts) => decide (ts.length = 3) && !ts.any (fun t => Tree.beq t spuriousTree)
+      | _ => false) = true := by
   decide +kernel
+
+/-! ### what the strong form gives C19 (`PositionsExact.sound`, `Proofs/ForecastPos.lean`)
+
+C19's remaining tie between the real prefix parse and the forecaster model is `PositionsExact G start h ps` for the right
+spines `ps` of the partial trees `PacketForecaster.predict` hands to the visitor: `sound` — every `p ∈ ps` is a partial
+derivation `PD G start h p` of the history — and `complete`.  `PD` (IR level, a word of messages) reads: along the spine, in a
+concatenation everything LEFT of the spine child is a complete derivation (`GM G (.cat id (ns.take i)) h1`), in a repetition
+the earlier iterations are complete (`RepM (GM G n) k h1`), an alternative / a nonterminal descends into one rule, and the
+spine ends in the last message of the history (`PD.msg`) or in a repetition that has not begun (`PD.rep0`).
+
+`C04_prefix_rightmost_path_only` is this statement at the level of the compiled rule table, for every tree the prefix parse
+yields (source with `cut_short`): by `C04_prefix_rightmost_path_shape`, at every node on the right spine the children are
+`ks1 ++ ks2` with `ks1` a COMPLETE derivation `DerL` of the first `n` symbols of the rule — the compiled counterpart of
+`GM (.cat id (ns.take i))`, and, through the right-recursive helper rules `<*id:j*>` a repetition compiles to, of
+`RepM (GM n) k` — and `ks2` the single child the spine continues in (`CutTail.node`: a `PreS` prefix of ONE rule of the
+nonterminal at position `n` — `PD.alt` / `PD.nt` / the next iteration of `PD.rep`), or nothing (`CutTail.none`: the spine
+ends after a complete child — the last message, `PD.msg`; or before any child — `PD.rep0`), or a partial leaf
+(`CutTail.leaf`: impossible at type level, a message type is matched whole or not at all).  No node off the spine is cut
+short and nothing follows a node that is — exactly what failed for the unrepaired parser (`spuriousTree`: `PD.cat` needs
+`GM` of `<b>` left of `<c>`) and made `predict` offer a message along a tree that is no partial derivation (C19:F68).
+
+What it does NOT give, and what stays with C19's own per-run tie (`pdB` on every walked tree, model of the visitor vs
+`PathFinder.forecast`): (a) the collapse from the compiled table (`DerL` / `PreS` over `compile G`) to the IR relations
+(`GM` / `PD` over `Node`) — for COMPLETE mode this is `Proofs/C04Collapse.lean` (`DerL` → `Matches` / `Valid`); the `PreS`
+version is not proved; (b) `predict` parses the history as a word of message TYPES and filters the yielded trees by party
+afterwards: `sound` at message level is `PreS` at type level + that filter; (c) the half `complete` (every derivation that
+extends the history completes a yielded tree): completeness of prefix mode is not proved at all. -/
 
 end FV.Earley
